@@ -9,7 +9,7 @@ from . import futb_model as M
 HEALTHY = H.PHEALTHY
 # VERIF_FUTB_SCALE < 1 thins the random/sampled part of the three checks (used only by the mutation self-test)
 SCALE = float(os.environ.get('VERIF_FUTB_SCALE', '1'))
-REASON = {0: [0], 1: [1], 2: [2], 3: [3], 4: [4], 5: [5]}   # pool state -> _errors canonical value
+REASON = {0: [0], 1: [1], 2: [2], 3: [3], 4: [4], 5: [5], 7: [2]}   # pool state -> _errors canonical value
 
 
 def uses_keyspace_flag(pv):
@@ -66,6 +66,7 @@ class Oracle(object):
             pools[op[1]] = op[2]
         obs = run.step(op)
         ev, st = run.last_events, run.last_state
+        self.timed_out = bool(sc.get('timeout')) and env.clock.now > 1005.0    # client timeout elapsed: a walk may stop early
         sends = [e for e in ev if e[0] == 1]
         consults = [e for e in ev if e[0] == 3]
         new_tasks = st['queue'][len(pre_queue) - (1 if op[0] == 'run' and task_exp is not None else 0):]
@@ -96,7 +97,11 @@ class Oracle(object):
                     self.cl_epoch += 1
                 if pre_exc is None and self.qexp and len(env.queue) == len(pre_queue) + 1:
                     self.qexp[-1] = {'kind': 'retry', 'reuse': dec == 0, 'host': h, 'cl': want_cl, 'epoch': self.cl_epoch}
-                if self.which == 'C16':
+                inline_now = bool(sc.get('inline')) and pre_exc is None and not env.shut
+                if inline_now:
+                    # executor-first schedule: the retry task runs inside this very step
+                    task_exp = {'kind': 'retry', 'reuse': dec == 0, 'host': h, 'cl': want_cl, 'epoch': self.cl_epoch}
+                if self.which == 'C16' and not inline_now:
                     if sends:
                         self.flag('retry.sent_on_event_loop', 'message sent while handling the decision %r' % (op,), 'C16_obeys')
                     if pre_exc is None and not env.shut and len(env.queue) != len(pre_queue) + 1:
@@ -160,7 +165,8 @@ class Oracle(object):
                     self.cursor = j + 1
         if task_exp and not sends:
             self.task_nosend(task_exp, pools, pre_exc, st, op)
-        if self.which == 'C17' and not sends and not pre_done and not (st['exc'] and st['exc'][0] == 5) and (
+        timed_out = bool(sc.get('timeout')) and env.clock.now > 1005.0      # the client timeout elapsed: the walk may stop (C15's business)
+        if self.which == 'C17' and not sends and not pre_done and not timed_out and not (st['exc'] and st['exc'][0] == 5) and (
                 op[0] == 'start' or new_page or (task_exp and task_exp['kind'] == 'retry')):
             # a send_request with error_no_hosts=True ends with a message or with NoHostAvailable
             self.flag('walk.neither_sent_nor_failed', 'after %r no message was sent and the request did not fail with NoHostAvailable '
@@ -278,7 +284,7 @@ class Oracle(object):
             return
         if self.which == 'C16' and t['kind'] == 'retry' and t['reuse'] and pools[t['host']] == HEALTHY:
             self.flag('retry.not_sent', 'RETRY decided for host %d (healthy) but nothing was sent (%r)' % (t['host'], op), 'C16_obeys')
-        if self.which == 'C16' and t['kind'] == 'retry' and not t['reuse'] and self.nodup:
+        if self.which == 'C16' and t['kind'] == 'retry' and not t['reuse'] and self.nodup and not self.timed_out:
             if any(pools[x] == HEALTHY for x in self.plan[self.cursor:]):
                 self.flag('next_host.not_sent', 'RETRY_NEXT_HOST decided, usable plan hosts remain, nothing sent (%r)' % (op,), 'C16_obeys')
         if self.which == 'C19' and t['kind'] == 'reprepare' and pools[t['host']] == HEALTHY:
